@@ -91,7 +91,7 @@ class Check(CheckBase):
         return loader.encoded("text_utils", ["xml_escape", "format_hms"])
 
     def cases(self, tier):
-        cs = [{"label": "xml/L%d" % n, "kind": "xml", "n": n} for n in range(0, 5 if tier == "quick" else 7)]
+        cs = [{"label": "xml/L%d" % n, "kind": "xml", "n": n, "split_depth": 8 if n >= 4 else None} for n in range(0, 5 if tier == "quick" else 7)]
         for m in ("ms", "s-milli", "s-int", "ms-vs-s"):
             cs.append({"label": "hms/" + m, "kind": "hms", "mode": m})
         return cs
